@@ -213,8 +213,16 @@ def check_adopted(ctx, rule_prefix="link"):
         params = [a.arg for a in fn.params if a.arg != fn.self_name]
         for p in params:
             # is p ever narrowed to a configuration?
+            def is_p(e, at, p=p):
+                """the parameter itself or a local copy of it (an inlined helper's own parameter name)"""
+                if not isinstance(e, ast.Name):
+                    return False
+                if e.id == p:
+                    return True
+                srcs = value_sources(fn, e, at)
+                return bool(srcs) and all(k == "param" and pl == p for k, pl in srcs)
             tests = [t for t in g.nodes if t.kind == "test" and isinstance(t.ast, ast.Call) and isinstance(t.ast.func, ast.Name)
-                     and t.ast.func.id == "isinstance" and isinstance(t.ast.args[0], ast.Name) and t.ast.args[0].id == p
+                     and t.ast.func.id == "isinstance" and len(t.ast.args) == 2 and is_p(t.ast.args[0], t)
                      and "Config" in (ft.class_spec(t.ast.args[1], {}) or [])]
             if not tests:
                 continue
@@ -238,6 +246,10 @@ def check_adopted(ctx, rule_prefix="link"):
                         isinstance(t, ast.Attribute) and t.attr == attr and isinstance(t.value, ast.Name) and (
                             t.value.id == p or any(k == "param" and pl == p for k, pl in value_sources(fn, t.value, m))) for t in m.ast.targets)}
                     redefs = {m for m in g.nodes if any(d.name == p for d in rd.defs_at.get(m, []))}
+                    # when the configuration travels under local names (inlined helpers), re-definitions of the parameter
+                    # are those of the name the use goes through
+                    if isinstance(getattr(u.ast, "value", None), ast.Name) and u.ast.value.id != p:
+                        redefs = set()
                     # only paths on which p is a configuration: they take the True edge of one of the tests
                     bad = None
                     for t in tests:
